@@ -10,7 +10,7 @@ def _sqrt(I, args, kw):
     x = to_real(args[0])
     I.require_defined(x >= 0, "ValueError", "math domain error")
     r = I.path.fresh("sqrt", z3.RealSort())
-    I.path.assume(z3.And(r >= 0, r * r == x))
+    I.path.assume(z3.And(r >= 0, I.ver.mul_real(r, r) == x))
     return VReal(r)
 
 
